@@ -22,7 +22,22 @@ func ruleNoArgMutation(c *core.Ctx, rule string) {
 		{"(*Writer).OpenStream", []string{"dict"}},
 		{"Format", []string{"objects"}},
 	}
-	c.Floor(rule, len(entries))
+	// every Write method of package pdf: an io.Writer must not modify the slice it is given
+	// (the caller may write the same bytes elsewhere, or keep using them)
+	for _, fn := range c.Prog.Funcs(c.Prog.Pkg("pdf")) {
+		if fn.Decl.Recv == nil || fn.Decl.Name.Name != "Write" || fn.Decl.Body == nil || c.Prog.IsTestFile(fn.Decl.Pos()) {
+			continue
+		}
+		ps := fn.Decl.Type.Params
+		if ps == nil || len(ps.List) != 1 || len(ps.List[0].Names) != 1 {
+			continue
+		}
+		if sl, ok := fn.Info().TypeOf(ps.List[0].Type).Underlying().(*types.Slice); !ok || !types.Identical(sl.Elem(), types.Typ[types.Byte]) {
+			continue
+		}
+		entries = append(entries, entry{strings.TrimPrefix(fn.Key, "pdf."), []string{ps.List[0].Names[0].Name}})
+	}
+	c.Floor(rule, 4)
 	var ma *core.MutAnalysis
 	for _, e := range entries {
 		e := e
